@@ -26,7 +26,8 @@ func stdEval() rel.Attr {
 func evalExpr(ctx context.Context, v rel.Value) (rel.Value, error) {
 	switch val := v.(type) {
 	case rel.String, rel.Bytes:
-		evaluated, err := EvaluateExpr(ctx, ".", val.String())
+		// Simple values only: the argument is evaluated with an empty library and an empty scope.
+		evaluated, err := contextualEval(ctx, EvalConfig{scopes: rel.EmptyTuple, stdlib: rel.EmptyTuple}, val)
 		if err != nil {
 			panic(err)
 		}
